@@ -240,6 +240,11 @@ def oracle_roundtrip(case, rec):
         rec.cls('with-deleted-options')
     if conf['imf_opts/stop_method'] == 'fixed' and conf['imf_opts/max_iters'] > 20:
         conf['imf_opts/max_iters'] = 4          # 1000 fixed iterations per IMF only burn time
+    if v == 'mask_sift' and case['sig']['k'] % 3 == 0:
+        conf['mask_amp'] = np.array([1.0, 0.5, 2.0])
+        conf['mask_amp_mode'] = ['ratio_sig', 'abs', 'ratio_imf'][case['sig']['k'] % 9 // 3]
+        conf['max_imfs'] = 3
+    pristine = copy.deepcopy(conf.store)
     try:
         ref = call(emd, v, x, **conf)
         np.random.seed(11)
@@ -249,6 +254,8 @@ def oracle_roundtrip(case, rec):
         raise Discard('convergence error')
     except Exception as e:
         raise Discard('edited option set is not a valid call: %s' % type(e).__name__)
+    if not deep_equal(conf.store, pristine):
+        raise Violation('C18/roundtrip/config-modified-by-the-call/' + v, 'before %r after %r' % (pristine, conf.store))
     if gf.shape != ref.shape or not np.array_equal(gf, ref):
         raise Violation('C18/roundtrip/get_func-differs-from-unpacked-call/' + v, '')
     before = copy.deepcopy(conf.store)
